@@ -679,7 +679,7 @@ fn random_tree(rng: &mut Rng, depth: u32, n_events: usize, times: &[u64], start:
 pub fn cmd_c11(args: &Args) -> Report {
     let mut rep = Report::new("C11");
     let mut rng = Rng::new(args.stream_seed("c11"));
-    let cases = args.cases(24_000, 500_000);
+    let cases = args.cases(72_000, 1_500_000);
     let max_events = args.extra_u64("events").unwrap_or(if args.thorough() { 600 } else { 150 }) as usize;
     'cases: for i in 0..cases {
         let small = rng.chance(1, 2);
